@@ -387,7 +387,7 @@ class World:
         for t in base:
             self.fresh += 1
             nt = torch.full(t.shape, 100.0 + self.fresh, dtype=t.dtype) + \
-                torch.arange(t.numel(), dtype=t.dtype).reshape(t.shape) + _frac(t.dtype)
+                torch.arange(t.numel(), dtype=torch.float64).reshape(t.shape).to(t.dtype) + _frac(t.dtype)
             out.append(nt)
         self.keep.extend(out)
         return out
